@@ -418,6 +418,8 @@ def h_m_call(w, st, rec):
     if any(isinstance(a.get(k), list) and a.get(k) for k in ("do", "shift", "noise")):
         m["iv"] = True
     note_probes_call(w, m, rec, out)
+    if rec.get("hash_twin"):
+        w.probes["call.after_its_hash_twin(-1 / -2)"] += 1
     if rec.get("giant") and out[0] == "ok":
         w.probes["sample.giant(>=2**20 values)"] += 1
     if pre != post:
@@ -1589,12 +1591,48 @@ def generate(run_seed, deep=False):
     np_star_faults(st["np_star"], ops)
     giant_samples(st["giant"], gs, ops, nclients)
     G.printoptions_variation(st["printoptions"], ops, at_start_only=True)
+    hash_twins(st["hashtwin"], gs, ops)
     f = st["errstate"]
     for rec in ops[:1]:
         r, state = f.random(), f.choice([{"under": "raise"}, {"all": "raise"}, {"under": "raise", "divide": "ignore"}])
         if rec.get("op") == "np.seterr" and r < 0.4:
             rec["state"] = state       # stricter error states of the caller (decided after generation)
     return cfg, ops
+
+
+def hash_twins(f, gs, ops):
+    """Values that are different and hash alike (CPython: hash(-1) == hash(-2), for ints and floats): in some runs one
+    comparable LGANM.sample call gets an intervention value of -1 and is preceded, on the same model, by the same call
+    with -2 in that place; the later call is then compared with a twin model that never saw the earlier one.  Decided
+    by a stream of its own, after generation."""
+    r, pick, which = f.random(), f.random(), f.random()
+    cands = []
+    for i, rec in enumerate(ops):
+        if rec.get("op") != "m.call" or rec.get("method") != "sample" or gs.models.get(rec.get("m"), {}).get("type") != "lganm":
+            continue
+        if any(rec.get(x) for x in ("arm", "sweep", "burst", "invalid", "via", "giant", "variant")) or not comparable(rec):
+            continue
+        a = rec.get("args", {})
+        kinds = [k for k in ("do", "shift", "noise") if isinstance(a.get(k), list) and a[k] and not a.get("same_dict")
+                 and all(isinstance(it[1], (int, float)) or (isinstance(it[1], list) and len(it[1]) == 2 and
+                         all(isinstance(q, (int, float)) for q in it[1])) for it in a[k])]
+        if kinds:
+            cands.append((i, kinds))
+    if r >= 0.1 or not cands:
+        return
+    i, kinds = cands[int(pick * len(cands))]
+    rec = ops[i]
+    kind = kinds[int(which * len(kinds))]
+    item = rec["args"][kind][0]
+    item[1] = [-1.0, item[1][1]] if isinstance(item[1], list) else -1
+    rec["twin"] = True
+    rec["hash_twin"] = True
+    before = copy.deepcopy(rec)
+    for key in ("keep", "as_model", "twin", "hash_twin"):
+        before.pop(key, None)
+    it2 = before["args"][kind][0]
+    it2[1] = [-2.0, it2[1][1]] if isinstance(it2[1], list) else -2
+    ops.insert(i, before)
 
 
 def giant_samples(f, gs, ops, nclients):
@@ -1773,7 +1811,7 @@ REQUIRED_PROBES = ["iv.do.non_source", "iv.shift.non_source", "iv.noise.non_sour
                    "utils.unseeded_call",
                    "nd.check_valid"]
 
-REQUIRED_PROBES = REQUIRED_PROBES + ["thread.calls_outside_main_thread", "fault.died_in_a_numpy_call(np.*)", "sweep.np_star", "sample.giant(>=2**20 values)"]
+REQUIRED_PROBES = REQUIRED_PROBES + ["call.after_its_hash_twin(-1 / -2)", "thread.calls_outside_main_thread", "fault.died_in_a_numpy_call(np.*)", "sweep.np_star", "sample.giant(>=2**20 values)"]
 
 
 def simplify(op):
